@@ -567,6 +567,24 @@ namespace bloch::runtime {
         m_gcCv.notify_all();
         if (m_gcThread.joinable())
             m_gcThread.join();
+        // Object deleters call back into this evaluator (class metadata, simulator, qubit
+        // bookkeeping). Members are destroyed in reverse declaration order, which would free
+        // the class table before the environments that still hold objects (e.g. after a
+        // runtime error, or a value left in the return slot). Release every remaining
+        // reference now, while the evaluator is intact, without running user destructors.
+        {
+            std::lock_guard<std::mutex> lock(m_heapMutex);
+            for (auto& weak : m_heap) {
+                if (auto obj = weak.lock())
+                    obj->skipDestructor = true;
+            }
+        }
+        m_returnValue = {};
+        m_env.clear();
+        for (auto& kv : m_classTable) {
+            if (kv.second)
+                kv.second->staticStorage.clear();
+        }
     }
 
     Value RuntimeEvaluator::lookup(const std::string& name) {
